@@ -458,6 +458,30 @@ def run(ctx):
         exp = "".join("c\t%d\t%d\n" % (int(r[1]), int(r[2])) for r in rows)
         ctx.check("file-int-column", got == exp, "file/int-column-write", "BED integer columns written wrongly", {"got": got, "expected": exp}, exp)
 
+    def case_bed_filtered_chunks(rows):
+        # integer columns of rows that come from several chunks of a file, each chunk filtered before the chunks are joined: the value of a row does not depend on which other rows were kept
+        path = ctx.path("c18c.bed")
+        with open(path, "w") as f:
+            f.write("".join("c\t%s\t%s\n" % (r[1], r[2]) for r in rows))
+        k = max(len("c\t%s\t%s\n" % (r[1], r[2])) for r in rows) + 1
+        chunks = list(bnp.open(path).read_chunks(min_chunk_size=k * rng.choice([1, 2, 3])))
+        if len(chunks) < 2:
+            return
+        keep, b0 = [], 0
+        parts = []
+        for ci, c_ in enumerate(chunks):
+            mk_ = [True] * len(c_)
+            if len(c_) >= 2 and rng.random() < 0.7:
+                mk_[rng.choice([len(c_) - 1, len(c_) - 1, 0, rng.randrange(len(c_))])] = False
+            keep += [b0 + i for i, q in enumerate(mk_) if q]
+            b0 += len(c_)
+            parts.append(c_[np.array(mk_, dtype=bool)])
+        joined = np.concatenate(parts)
+        got = list(zip(np.asarray(joined.start).tolist(), np.asarray(joined.stop).tolist()))
+        exp = [(int(rows[i][1]), int(rows[i][2])) for i in keep]
+        ctx.check("file-int-column", got == exp, "file/int-column-parse:filtered-chunks-joined", "integer columns of filtered chunks joined: %r, the kept rows hold %r" % (got[:4], exp[:4]), {"rows": [list(r) for r in rows], "kept": keep, "got": got, "expected": exp}, (tuple(rows), tuple(keep)))
+        ctx.count("filtered_chunks_joined")
+
     def case_bdg(rows):
         path = ctx.path("c18.bdg")
         text = "".join("c\t%d\t%d\t%s\n" % r for r in rows)
@@ -483,6 +507,11 @@ def run(ctx):
             # explicit '+' signs and leading zeros (valid spellings), with or without a negative-free column
             rows = [(c_, ("+" + a_ if rng.random() < 0.5 else a_), ("0" * rng.randint(0, 2) + b_)) for c_, a_, b_ in rows]
         call(case_bed, rows)
+        if rng.random() < 0.5:
+            # equal-width lines (19-digit coordinates) and mixed widths
+            wide = rng.random() < 0.5
+            rows_c = [("c", str(10 ** 18 + rng.randint(0, 10 ** 6)) if wide else str(abs(rand_int(rng)) % 10 ** rng.randint(1, 12)), str(9 * 10 ** 18 - rng.randint(0, 10 ** 6)) if wide else str(abs(rand_int(rng)) % 10 ** rng.randint(1, 12))) for _ in range(rng.randint(4, 12))]
+            call(case_bed_filtered_chunks, rows_c)
         rows = [(rng.randint(0, 10 ** 6), rng.randint(0, 10 ** 6), rand_float_text(rng)) for _ in range(n)]
         if rng.random() < 0.3:
             # a column in which every line is a whole number without fraction or exponent (counts), of any magnitude
@@ -598,6 +627,14 @@ def run(ctx):
         ctx.check("matrix", txt == exp, "matrix_to_csv/wrong-text", "matrix_to_csv differs from canonical text", {"matrix": m, "got": txt, "expected": exp}, exp)
         back = parse_matrix(txt, field_type=int, rowname_type=None)
         ctx.check("matrix", np.asarray(back.data).tolist() == m, "parse_matrix/wrong-values", "parse_matrix(matrix_to_csv(m)) != m", {"matrix": m, "got": np.asarray(back.data).tolist()}, exp + "p")
+        # the same text through the file entry point, the field type given by keyword or positionally
+        from bionumpy.io.matrix_dump import read_matrix
+        mp = ctx.path("m.tsv")
+        with open(mp, "w") as fh:
+            fh.write(txt)
+        for how_ in ("keyword", "positional"):
+            back2 = read_matrix(mp, field_type=int, rowname_type=None) if how_ == "keyword" else read_matrix(mp, int, str, None)
+            ctx.check("matrix", np.asarray(back2.data).tolist() == m and np.asarray(back2.data).dtype.kind in "iu", "read_matrix/wrong-values:%s" % how_, "read_matrix(file, int) != m", {"matrix": m, "got": np.asarray(back2.data).tolist()}, exp + "f" + how_)
 
     for _ in range(ctx.share(ctx.pick(100, 3000))):
         r, c = rng.randint(1, 4), rng.randint(1, 4)
